@@ -828,6 +828,98 @@ const NAMED_THINGS: [&str; 3] = [
     "enum Tree { leaf, node(int32) }\nfn depth(t: Tree) -> int32 { match t { Tree::leaf => 0, Tree::node(deep) => deep } }\nfn main() {\n    let nodes = depth(Tree::node(3)); // node, leaf, deep\n    string_println(int32_to_string(nodes))\n}\n",
 ];
 
+/// programs whose parameters are written with `Self`, generic parameters, function types: a hover on the
+/// parameter's name in the parameter list says what a hover on its use in the body says
+const PARAMETER_PROGRAMS: [&str; 3] = [
+    "trait Show { fn show(Self) -> string; fn twice(Self, int32) -> string; }\nstruct Wq { k: int32 }\nimpl Show for int32 { fn show(self: Self) -> string { int32_to_string(self) } fn twice(self: Self, times: int32) -> string { int32_to_string(self * times) } }\nimpl Show for Wq { fn show(self: Self) -> string { int32_to_string(self.k) } fn twice(self: Wq, times: int32) -> string { int32_to_string(self.k * times) } }\nimpl Wq { fn get(self: Self) -> int32 { self.k } fn add(self: Self, more: int32) -> Wq { Wq { k: self.k + more } } }\nfn main() {\n    let w = Wq { k: 2 };\n    string_println(Show::show(3) + Show::twice(w, 2) + int32_to_string(Wq::get(w.add(1))))\n}\n",
+    "struct Bx[T] { v: T }\nimpl[T] Bx[T] { fn take(self: Self) -> T { self.v } fn put(self: Bx[T], item: T) -> Bx[T] { Bx { v: item } } }\nfn first[A, B](left: A, right: B) -> A { let unused = right; left }\nfn apply(step: (int32) -> int32, start: int32) -> int32 { step(start) }\nfn inc(n: int32) -> int32 { n + 1 }\nfn main() {\n    let b = Bx { v: 1 };\n    string_println(int32_to_string(Bx::take(b.put(5)) + first(1, \"s\") + apply(inc, 2)))\n}\n",
+    "enum Opt[T] { Non, Som(T) }\nimpl[T] Opt[T] { fn or(self: Self, other: T) -> T { match self { Opt::Som(held) => held, Opt::Non => other } } }\nfn pair(both: (int32, string), cell: Ref[bool], list: Vec[int8], grid: [int32; 2]) -> int32 { let b = both; let c = cell; let l = list; let g = grid; b.0 }\nfn main() {\n    let o: Opt[int32] = Opt::Som(1);\n    string_println(int32_to_string(o.or(2) + pair((1, \"s\"), ref(true), vec_new(), [1, 2])))\n}\n",
+];
+
+fn run_parameter_binders(i: usize, ctx: &mut Ctx, rep: &mut Report) {
+    let text = PARAMETER_PROGRAMS[i];
+    let name = format!("parameters{}", i);
+    let path = ctx.scratch.single_path();
+    if !matches!(crate::oracle::compile_at(&path, text), crate::oracle::CompileOutcome::Ok(_)) {
+        rep.tag("machinery:program-does-not-compile");
+        rep.sample = Some(json!({"program": name}));
+        return;
+    }
+    let toks: Vec<(String, usize, bool)> = lexer::lex(text).iter().filter(|t| !t.kind.is_trivia()).map(|t| (t.text.to_string(), u32::from(t.range.start()) as usize, t.text.chars().next().is_some_and(|c| c.is_ascii_alphabetic()) )).collect();
+    let ask = |off: usize| {
+        let (line, col) = line_col(text, off);
+        match guarded(|| hover_type(&path, text, line, col)) {
+            Ok(Ok(t)) => squash(&t),
+            Ok(Err(_)) => "<nothing>".to_string(),
+            Err(p) => format!("<panic:{}>", p),
+        }
+    };
+    let mut checked = 0u64;
+    let mut k = 0;
+    while k < toks.len() {
+        if toks[k].0 != "fn" {
+            k += 1;
+            continue;
+        }
+        // fn name [generics] ( params ) ... { body }
+        let mut j = k + 2;
+        if j < toks.len() && toks[j].0 == "[" {
+            while j < toks.len() && toks[j].0 != "]" {
+                j += 1;
+            }
+            j += 1;
+        }
+        if j >= toks.len() || toks[j].0 != "(" {
+            k += 1;
+            continue;
+        }
+        let mut depth = 0i32;
+        let mut params: Vec<(String, usize)> = Vec::new();
+        let mut m = j;
+        while m < toks.len() {
+            match toks[m].0.as_str() {
+                "(" | "[" => depth += 1,
+                ")" | "]" => {
+                    depth -= 1;
+                    if depth == 0 {
+                        break;
+                    }
+                }
+                _ => {
+                    if depth == 1 && toks[m].2 && m + 1 < toks.len() && toks[m + 1].0 == ":" && matches!(toks[m - 1].0.as_str(), "(" | ",") {
+                        params.push((toks[m].0.clone(), toks[m].1));
+                    }
+                }
+            }
+            m += 1;
+        }
+        // the body ends where the next `fn` begins (the programs do not nest functions)
+        let body_end = toks.iter().skip(m).position(|t| t.0 == "fn").map(|p| p + m).unwrap_or(toks.len());
+        for (pname, poff) in params {
+            let Some(use_tok) = toks[m..body_end].iter().find(|t| t.0 == pname) else { continue };
+            for off in poff..poff + pname.len() {
+                checked += 1;
+                let (at_binder, at_use) = (ask(off), ask(use_tok.1));
+                rep.more_keys.push(fnv(&format!("{}|{}", name, off)));
+                if at_binder != at_use {
+                    let (line, col) = line_col(text, off);
+                    rep.findings.push(Finding {
+                        property: "C20",
+                        class: "hover.parameter-differs-from-its-use".into(),
+                        site: format!("program={};parameter={};binder={};use={}", name, pname, at_binder, at_use),
+                        detail: format!("{} hover at {}:{} on the parameter `{}` says {} but on its use in the body {}", name, line, col, pname, at_binder, at_use),
+                        replay: json!({"kind": "query", "request": "hover", "text": text, "line": line, "col": col, "expected": at_use}),
+                    });
+                    break;
+                }
+            }
+        }
+        k = m;
+    }
+    rep.sub_evaluations = checked;
+    rep.outcome = Some(format!("parameter-binders:{}:{}", name, rep.findings.len()));
+}
+
 /// adding a function nobody calls changes no answer: hover at every offset of every word, before
 /// and after a function of that name (and of a type nothing else has) is appended to the file
 fn run_unrelated_function(i: usize, ctx: &mut Ctx, rep: &mut Report) {
@@ -915,18 +1007,22 @@ impl Family for HoverAll {
         &["C20"]
     }
     fn rule(&self) -> &'static str {
-        "programs = the 11 query seed programs + 4 extra programs (binders in every pattern form incl. shorthand struct-pattern fields; callees and receivers under prefix operators; one spelling naming a local, a field, a function and a closure parameter) + the 74 corpus programs; for every identifier use and every binder (pattern variable, closure parameter) that the compiler's typed tree records with a source range (variables, parameters, function references, generic functions at each instance) and every byte offset inside it: hover must report exactly the type the typed tree assigns to that use. plus, on the seed and extra programs and 3 programs in which one word names a field, a variant, a trait method, a parameter, a type and stands in comments and strings: for every word of the text that is not a function and every offset inside each of its occurrences, the answer is the same before and after an uncalled function of that name is appended to the file. non-trivial = uses whose spelling is also the name of a top-level function, a field or another binder of a different type; distinct = distinct (program, offset)"
+        "programs = the 11 query seed programs + 4 extra programs (binders in every pattern form incl. shorthand struct-pattern fields; callees and receivers under prefix operators; one spelling naming a local, a field, a function and a closure parameter) + the 74 corpus programs; for every identifier use and every binder (pattern variable, closure parameter) that the compiler's typed tree records with a source range (variables, parameters, function references, generic functions at each instance) and every byte offset inside it: hover must report exactly the type the typed tree assigns to that use. plus, on the seed and extra programs and 3 programs in which one word names a field, a variant, a trait method, a parameter, a type and stands in comments and strings: for every word of the text that is not a function and every offset inside each of its occurrences, the answer is the same before and after an uncalled function of that name is appended to the file; on 3 programs with parameters written `Self`, with type parameters, function, tuple, Ref, Vec and array types: a hover on the parameter in the parameter list says what a hover on its use in the body says. non-trivial = uses whose spelling is also the name of a top-level function, a field or another binder of a different type; distinct = distinct (program, offset)"
     }
     fn cases(&self, _tier: Tier) -> Box<dyn Iterator<Item = Value> + '_> {
         let n = SEEDS.len() + HOVER_EXTRA.len() + crate::families::text::corpus_sources().len() - 1;
         let m = SEEDS.len() + HOVER_EXTRA.len() + NAMED_THINGS.len();
-        Box::new((0..n).map(|i| json!({"program": i})).chain((0..m).map(|i| json!({"unrelated-function": i}))))
+        Box::new((0..n).map(|i| json!({"program": i})).chain((0..m).map(|i| json!({"unrelated-function": i}))).chain((0..PARAMETER_PROGRAMS.len()).map(|i| json!({"parameter-binders": i}))))
     }
     fn case_timeout(&self, _tier: Tier) -> u64 {
         300
     }
     fn run(&self, case: &Value, ctx: &mut Ctx) -> Report {
         let mut rep = Report::default();
+        if let Some(i) = case["parameter-binders"].as_u64() {
+            run_parameter_binders(i as usize, ctx, &mut rep);
+            return rep;
+        }
         if let Some(i) = case["unrelated-function"].as_u64() {
             run_unrelated_function(i as usize, ctx, &mut rep);
             return rep;
